@@ -49,7 +49,9 @@ pub fn run(args: &[String]) -> i32 {
         let n_status = if ev_mode == "missing" || ev_mode == "both" { 1 } else { 0 };
         let req = Req { kind: "read".into(), paths, timed: false, ev_paths, late: false };
         tr.ev(json!({"ev": "Reset", "run": bi}));
-        tr.ev(json!({"ev": "Req", "items": expect, "events": if sees_events { evs.clone() } else { vec![] }, "evstatus": n_status}));
+        // what the node is built with: the transmit buffer of an exchange and the largest datagram the transport sends
+        tr.ev(json!({"ev": "Req", "items": expect, "events": if sees_events { evs.clone() } else { vec![] }, "evstatus": n_status,
+                     "cap": rs_matter::transport::exchange::MAX_EXCHANGE_TX_BUF_SIZE, "max_dgram": rs_matter::transport::network::MAX_TX_PACKET_SIZE}));
         match crate::util::catch(|| run_request(&spec, &[], true, &req, 300)) {
             Ok(o) => {
                 for it in o.items.iter() {
